@@ -34,8 +34,17 @@ def run(ctx):
     ]
     ctx.assumptions += ["index >= 0 (validateBitSetIndex exits the process otherwise)", "no Go int overflow in index arithmetic"]
     ctx.lean(props=["Props.C08"], drivers=["drv_c08"])
-    ctx.harness("./cmd/c08")
+    ctx.harness("./cmd/c08", overlay={"xmath/verif_c08_export.go": "c08_export.go"})
     ctx.diff(area="bitset", driver="drv_c08", n={"quick": 240000, "thorough": 12000000}, stateful=True,
              trivial=_trivial, tagger=_tag,
              theorem="C08.* (Props/C08.lean): the model is a finite set of naturals with the documented search results "
                      "and `set` = cardinality; the implementation differs from the model on this history")
+    # the hypothesis `BS.SwarPopcount` of the `_partial` theorems, tested directly: Go countSetBits (exported by an
+    # overlay file) = the transcribed SWAR routine = the specification popcount (the driver prints a different text
+    # when the last two differ)
+    ctx.diff(area="popcnt", driver="drv_c08", n={"quick": 120000, "thorough": 4000000}, stateful=False,
+             theorem="hypothesis BS.SwarPopcount of C08.range_count_partial / count_card_partial: countSetBits of the "
+                     "source differs from the population count on this word")
+    ctx.extra["unproved_hypotheses"] = ["BS.SwarPopcount (countSetBits = popcount): named hypothesis of "
+                                        "range_count_partial, count_card_partial, step_partial; kernel-checked on 256 "
+                                        "byte patterns (swar_bytes_partial); differential area popcnt"]
